@@ -5,6 +5,8 @@ points; `lam` is the `LAMBDA` constant (`'λ'` = 955, or `'\\'` = 92 with featur
 `backslash_lambda`).  `u32`/`usize` arithmetic is `Nat` (DESIGN §5).
 -/
 import LC.Model.Term
+import LC.Model.Reduce
+import LC.Model.Parser
 
 namespace LC
 namespace Display
@@ -63,6 +65,39 @@ def showDbr (lam : Nat) : Term → Nat → List Nat
 
 /-- `impl Debug for Term` -/
 def debug (lam : Nat) (t : Term) : List Nat := showDbr lam t 0
+
+/-! ### the string tables of the crate: `Display` of `TermError`, `ParseError`, `Order` -/
+
+/-- `impl fmt::Display for TermError` -/
+def termErrorMsg : TermError → List Nat
+  | .NotVar => str "the term is not a variable"
+  | .NotAbs => str "the term is not an abstraction"
+  | .NotApp => str "the term is not an application"
+
+/-- `impl fmt::Display for Order` -/
+def orderName : Order → List Nat
+  | .NOR => str "normal"
+  | .CBN => str "call-by-name"
+  | .HSP => str "head spine"
+  | .HNO => str "hybrid normal"
+  | .APP => str "applicative"
+  | .CBV => str "call-by-value"
+  | .HAP => str "hybrid applicative"
+
+/-- decimal digits of a `usize` (`{}` formatting), most significant first -/
+def decLoop (n : Nat) (acc : List Nat) : List Nat :=
+  if _h : n = 0 then acc else decLoop (n / 10) ((48 + n % 10) :: acc)
+termination_by n
+decreasing_by omega
+
+def natDec (n : Nat) : List Nat := if n = 0 then [48] else decLoop n []
+
+/-- `impl fmt::Display for ParseError` -/
+def parseErrorMsg : Parser.ParseError → List Nat
+  | .InvalidCharacter idx c =>
+    str "lexical error; invalid character '" ++ (c :: (str "' at " ++ natDec idx))
+  | .InvalidExpression => str "syntax error; the expression is invalid"
+  | .EmptyExpression => str "syntax error; the expression is empty"
 
 end Display
 end LC
